@@ -58,7 +58,7 @@ ASSUMPTIONS = [
     'graphs never use a variable name as a concept.',
     'Inputs to the tool are well-formed graphs; no simulated time (penman has no clock).',
 ]
-PROBES = ['bad_first_source_good_last', 'bad_last_source', 'bad_middle', 'same_file_twice', 'stdin_input',
+PROBES = ['quiet', 'bad_first_source_good_last', 'bad_last_source', 'bad_middle', 'same_file_twice', 'stdin_input',
           'multi_file', 'empty_source', 'no_check_control', 'triples_mode', 'inverted_bad_role',
           'role_ending_in_of_defined', 'subprocess_crosscheck', 'errors_unreachable', 'errors_empty',
           'errors_top_not_variable', 'duplicate_offending_triple']
@@ -107,6 +107,8 @@ def plan(rng, idx, tier):
     opts = {'check': not srng.chance(0.1), 'indent': srng.pick([-1, -1, -1, None, 0, 2, 3]),
             'compact': srng.chance(0.2), 'triples': srng.chance(0.12),
             'verbosity': srng.weighted([(0, 8), (1, 1), (2, 1), (3, 1)])}
+    if srng.chance(0.06):
+        opts['quiet'] = True
     if srng.chance(0.15):
         opts['canonicalize_roles'] = True
     if spec['kind'] in ('amr', 'custom') and srng.chance(0.1):
@@ -161,6 +163,9 @@ def execute(trace):
     if not order:
         order = list(range(len(texts)))
     argv = gmodels.cli_args(spec, '/sim/model.json') + cli_pipeline.cli_args(opts)
+    if opts.get('quiet'):
+        argv.append('-q' if trace.get('mixseed', 0) % 2 else '--quiet')
+        res.hit('probe.quiet')
     files = {}
     plans = {}
     if spec['kind'] == 'custom':
@@ -252,6 +257,9 @@ def execute(trace):
                         offending=expected, **detail)
         if r.stdout_error is not None:
             res.violate('cli', 'stdout-error', error=digest.canon_exc(r.stdout_error), **detail)
+        elif opts.get('quiet'):
+            if r.stdout != '':
+                res.violate('output', 'quiet-wrote-to-stdout', **detail)
         elif not opts.get('triples'):
             blocks, seps, tail, problems = splitter.split_blocks(r.stdout)
             ngen = sum(len(trace['sources'][i]['graphs']) for i in order)
@@ -284,7 +292,7 @@ def execute(trace):
                         res.violate('errors', 'non-role-error-on-decoded-graph', graph=bi, messages=bad_msgs,
                                     **detail)
                         break
-    if trace.get('subprocess') and ref_ok:
+    if trace.get('subprocess') and ref_ok and not opts.get('quiet'):
         subprocess_crosscheck(trace, spec, argv, texts, order, stdin_bytes, r, res)
     for name, n in k.c.items():
         res.hit(name, n)
